@@ -1192,7 +1192,97 @@ def gen_c06_fan(rng, mode):
     return g.finish()
 
 
+def gen_c06_merge(rng, mode):
+    """A key that is a strict prefix of other keys and sits on a non-root inner node with a single (inner) child:
+    ONE transaction deletes it (the child is merged into its place) and then inserts, replaces or deletes
+    something below the merged node, with no read in between; watchers on absent keys below the node, on the
+    prefixes ending at it and on the keys themselves must be woken by that commit."""
+    g = DBGen(rng, mode)
+    g.add(op="config", nilempty=False)
+    t = g.newtable()
+    g.watch_budget = 200
+    a = rng.choice([97, 5, 200])
+    P = [a, a + 1]                      # the key on the inner node
+    C = P + [a + 2]                     # common prefix of the keys below it
+    nkids = rng.choice([2, 2, 3])
+    kids = [C + [i + 1] for i in range(nkids)]
+    newkid = C + [nkids + 1]
+    other = [[a + 7], [a, a + 9]][:rng.randint(1, 2)]     # keeps P's node off the root / gives it a sibling
+
+    def obj(pk):
+        return dict(pk=pk, val=rng.randint(1, 9), hasU=rng.random() < 0.5, u=pk + [1], tags=[], pfx=[], hasUp=False, upfx=[])
+
+    ins = [P] + kids + other
+    rng.shuffle(ins)
+    for i in range(0, len(ins), 3):
+        tx = g.begin([t])
+        for pk in ins[i:i + 3]:
+            g.add(op="insert", tx=tx, t=t, obj=obj(pk), guard=0, gsym="", w=0)
+        g.commit(tx)
+    s = g.snap()
+    src = g.snap_src(s)
+    for pk in [newkid, C, C + [99], P + [77]]:
+        g.q(src, t, "id", "get", pk, watch=True)
+        if rng.random() < 0.5:
+            g.q(src, t, "u", "get", pk + [1], watch=True)
+    for pk in [P, C, P[:1], kids[0]]:
+        g.q(src, t, "id", "prefix", pk, watch=True)
+        if rng.random() < 0.5:
+            g.q(src, t, "id", "list", pk, watch=True)
+    g.q(src, t, "id", "get", kids[0], watch=True)
+    g.q(src, t, "id", "get", kids[-1], watch=True)
+    tx = g.begin([t])
+    g.add(op="delete", tx=tx, t=t, obj=obj(P), guard=0, gsym="", w=0)
+    follow = rng.choice(["insert", "replace", "delete", "insert"])
+    if follow == "insert":
+        g.add(op="insert", tx=tx, t=t, obj=obj(newkid), guard=0, gsym="", w=0)
+    elif follow == "replace":
+        g.add(op="insert", tx=tx, t=t, obj=obj(kids[0]), guard=0, gsym="", w=0)
+    else:
+        g.add(op="delete", tx=tx, t=t, obj=obj(kids[-1]), guard=0, gsym="", w=0)
+    g.commit(tx)
+    g.chans()
+    return g.finish()
+
+
+def gen_c06_big(rng, mode):
+    """One transaction that replaces/deletes 30-140 objects (the set of channels to close at commit grows past the
+    64 entries up to which the index transaction reuses it), watchers on some of them, on absent keys and on
+    prefixes; then a small transaction."""
+    g = DBGen(rng, mode)
+    g.add(op="config", nilempty=False)
+    t = g.newtable()
+    g.watch_budget = 200
+    n = rng.choice([30, 64, 65, 66, 70, 100, 140])
+    keys = [[1 + i // 12, 1 + i % 12] for i in range(n)]
+
+    def obj(pk):
+        return dict(pk=pk, val=rng.randint(1, 9), hasU=False, u=[], tags=[], pfx=[], hasUp=False, upfx=[])
+
+    tx = g.begin([t])
+    for k in keys:
+        g.add(op="insert", tx=tx, t=t, obj=obj(k), guard=0, gsym="", w=0)
+    g.commit(tx)
+    for rnd in range(2):
+        s = g.snap()
+        src = g.snap_src(s)
+        for _ in range(rng.randint(3, 7)):
+            k = rng.choice(keys)
+            r = rng.random()
+            if r < 0.6:
+                g.q(src, t, "id", "get", rng.choice([k, k + [1], [99]]), watch=True)
+            else:
+                g.q(src, t, "id", "prefix", k[:rng.randint(0, 2)], watch=True)
+        tx = g.begin([t])
+        for k in (keys if rnd == 0 else rng.sample(keys, rng.randint(1, 3))):
+            g.add(op="insert" if rng.random() < 0.75 else "delete", tx=tx, t=t, obj=obj(k), guard=0, gsym="", w=0)
+        g.commit(tx)
+        g.chans()
+    return g.finish()
+
+
 MODES = {
+    "c06merge": gen_c06_merge, "c06big": gen_c06_big,
     "c06fan": gen_c06_fan,
     "dbfan": gen_dbfan,
     "derive": gen_derive,
